@@ -72,6 +72,21 @@ def numeric_bijection(ctx, name, obj, shape, rs, rep, unit_interval=False):
         u, ildj = obj.apply_backward(x)
         xr, ldj = obj.apply_forward(u)
         u2, ildj2 = obj.apply_backward(xr)
+    prev = torch.is_grad_enabled()
+    torch.set_grad_enabled(True)
+    try:
+        ug = u.detach().clone().requires_grad_(True)
+        xg, ldjg = obj.apply_forward(ug)
+    finally:
+        torch.set_grad_enabled(prev)
+    xg = xg.detach()
+    ldjg_t = torch.as_tensor(ldjg).detach().double().reshape(-1) if torch.is_tensor(ldjg) else torch.tensor([float(ldjg)], dtype=torch.float64)
+    ldj_t = torch.as_tensor(ldj).detach().double().reshape(-1) if torch.is_tensor(ldj) else torch.tensor([float(ldj)], dtype=torch.float64)
+    if not torch.allclose(xg, xr, atol=TOL * (1.0 + float(xr.abs().max())), rtol=1e-7) or \
+            float((ldjg_t - ldj_t).abs().max()) > 1e-6 * (1 + float(ldj_t.abs().max())):
+        ctx.violation('c15-forward-grad-path:' + name, f'{name}: apply_forward with autograd enabled (the rsample path) differs from apply_forward under no_grad '
+                                                       f'(max deviation {float((xg - xr).abs().max()):.3e})', replay=rep)
+        return False
     ildj = torch.as_tensor(ildj, dtype=torch.float64).expand(2) if not torch.is_tensor(ildj) or ildj.dim() == 0 else ildj
     ldj = torch.as_tensor(ldj, dtype=torch.float64).expand(2) if not torch.is_tensor(ldj) or ldj.dim() == 0 else ldj
     scale = 1.0 + float(x.abs().max()) + float(u.abs().max())
@@ -217,7 +232,7 @@ def run(ctx):
             shape = (n,)
         else:
             c = int(rs.choice([2, 4])) if kind == 2 else int(rs.randint(1, 4))
-            h, w = int(rs.choice([2, 4])), int(rs.choice([2, 4]))
+            h, w = int(rs.choice([2, 4, 6])), int(rs.choice([2, 4]))
             affine = bool(rs.rand() < 0.7); rev = bool(rs.rand() < 0.5)
             net = str(rs.choice(['resnet', 'densenet']))
             rep = dict(kind='c15-layer', layer='CouplingLayer2d', shape=[c, h, w], channelwise=(kind == 2), network=net, affine=affine, reverse=rev, k=k)
@@ -225,6 +240,20 @@ def run(ctx):
             shape = (c, h, w)
         ctx.case('layer', nontrivial_key=json.dumps(rep, sort_keys=True), sample=rep)
         ctx.count('layer:' + rep['layer'] + (':channelwise' if rep.get('channelwise') else ''))
+        numeric_bijection(ctx, rep['layer'], randomize(obj, rs), shape, rs, rep)
+        if ctx.n_new() >= 3:
+            return
+    from deeprob.flows.utils import BatchNormLayer1d, BatchNormLayer2d
+    for k in range(10 if quick else 80):
+        rs = np.random.RandomState(np_seed(ctx.sub_rng('bn', k)))
+        if k % 3 == 0:
+            n = int(rs.randint(1, 9))
+            obj, shape, rep = BatchNormLayer1d(n), (n,), dict(kind='c15-layer', layer='BatchNormLayer1d', n=n, k=k)
+        else:
+            c, h, w = int(rs.randint(1, 4)), int(rs.choice([1, 2, 3, 4, 6])), int(rs.choice([1, 2, 3, 5, 6]))
+            obj, shape, rep = BatchNormLayer2d(c), (c, h, w), dict(kind='c15-layer', layer='BatchNormLayer2d', shape=[c, h, w], k=k)
+        ctx.case('layer', nontrivial_key=json.dumps(rep, sort_keys=True), sample=rep)
+        ctx.count('layer:' + rep['layer'] + (':non-square' if len(shape) == 3 and shape[1] != shape[2] else ''))
         numeric_bijection(ctx, rep['layer'], randomize(obj, rs), shape, rs, rep)
         if ctx.n_new() >= 3:
             return
